@@ -788,7 +788,7 @@ class Executor:
         if depth > 200:
             raise Unsupported('call depth > 200')
 
-    def run(self, st, func, args, bind=None, start_bb=None, locals_by_name=None):
+    def run(self, st, func, args, bind=None, start_bb=None, locals_by_name=None, locals_by_index=None):
         """run `func(args)` from state st on all paths -> [(state, retval | Panic)].
         start_bb / locals_by_name start the execution in the middle of the function (at a loop head) with the named
         locals (debug names) pre-set: used for inductive steps over loops."""
@@ -801,6 +801,23 @@ class Executor:
                 if nm_ not in (func.debug or {}):
                     raise Unsupported(f"local {nm_} not found in {func.name}")
                 fr.locals[func.debug[nm_]].value = val
+            for idx_, val in (locals_by_index or {}).items():
+                fr.locals[idx_].value = val
+        return self._drive(st, base)
+
+    def resume(self, st):
+        """continue a path that was stopped by a loop cut (its frames are in st.cut_frames), counting block visits afresh:
+        used to run inductive steps from a loop head whose carried locals have been replaced by arbitrary values"""
+        base = len(st.frames)
+        frames = st.cut_frames
+        st.cut_frames = None
+        for fr in frames:
+            fr.visits = {}
+        st.frames.extend(frames)
+        st._abort = None
+        return self._drive(st, base)
+
+    def _drive(self, st, base):
         work = [st]
         results = []
         while work:
